@@ -196,10 +196,11 @@ def design(chk):
         jobs.append(('sens', m, small, cfg))
     nd = len(UNIVERSES[chk.tier])
     with ThreadPoolExecutor(max_workers=len(jobs)) as ex:
-        wk = (8 if chk.tier == 'quick' else 14) // nd
-        futs = [(j, ex.submit(run_tlc, j[3],
-                              max(2, wk) if j[0] == 'design' else 1))
-                for j in jobs]
+        # the first universe is by far the largest
+        tot = 10 if chk.tier == 'quick' else 14
+        wk = lambda j: (max(2, tot - 2 * (nd - 1)) if j[1] == 0 else 2) \
+            if j[0] == 'design' else 1                       # noqa: E731
+        futs = [(j, ex.submit(run_tlc, j[3], wk(j))) for j in jobs]
         for j, f in futs:
             r = f.result()
             if j[0] == 'design':
